@@ -29,18 +29,32 @@ def body():
                                topics=[(0, "topic-a", [(0, 0, 1, [1, 2], [1])]), (3, "t", [])]).encode()
 
 
-async def one(payload, chunk):
+def flexible_body():
+    """a flexible reply (response header v1): tagged fields in the header, in a nested entry and at the very end of the body"""
+    from aiokafka.protocol.admin import ListPartitionReassignmentsResponse_v0
+    from aiokafka.protocol.types import TaggedFields
+    body = ListPartitionReassignmentsResponse_v0(0, 0, None, [("t", [(0, [1, 2], [3], [], {1: b"in"})], {})], {0: b"body-tag", 9: b"xyz"}).encode()
+    return TaggedFields.encode({2: b"header-tag"}) + body
+
+
+def flexible_request():
+    from aiokafka.protocol.admin import ListPartitionReassignmentsRequest
+    return ListPartitionReassignmentsRequest(1000, [], {})
+
+
+async def one(payload, chunk, flexible=False):
     from unittest import mock
     from aiokafka.conn import AIOKafkaConnection
     from aiokafka.errors import KafkaConnectionError
     from aiokafka.protocol.metadata import MetadataRequest
     conn = AIOKafkaConnection(host="localhost", port=9092, request_timeout_ms=5000)
-    conn._versions = {MetadataRequest.API_KEY: (0, 0)}
+    conn._versions = {MetadataRequest.API_KEY: (0, 0), 46: (0, 0)}
     reader = asyncio.StreamReader()
     conn._reader = reader
     conn._writer = mock.MagicMock()
     conn._read_task = conn._create_reader_task()
-    waiters = [asyncio.ensure_future(conn.send(MetadataRequest([]))) for _ in range(3)]
+    first = flexible_request() if flexible else MetadataRequest([])
+    waiters = [asyncio.ensure_future(conn.send(r)) for r in (first, MetadataRequest([]), MetadataRequest([]))]
     await asyncio.sleep(0)
     stream = frame(payload) + frame(INT32.pack(2) + body()) + frame(INT32.pack(3) + body())
     for i in range(0, len(stream), chunk):
@@ -71,16 +85,17 @@ async def one(payload, chunk):
 
 def sweep(chunks=(1, 3, 7, 1 << 16)):
     fails, n = [], 0
-    full = INT32.pack(1) + body()
 
     async def main():
         nonlocal n
-        for k in range(len(full)):
-            for chunk in chunks:
-                n += 1
-                r = await one(full[:k], chunk)
-                if r:
-                    fails.append("reply frame cut to %d of %d bytes, stream fed in pieces of %d: %s" % (k, len(full), chunk, r))
+        for flexible, full in ((False, INT32.pack(1) + body()), (True, INT32.pack(1) + flexible_body())):
+            for k in range(len(full)):
+                for chunk in (chunks if not flexible else (1, 1 << 16)):
+                    n += 1
+                    r = await one(full[:k], chunk, flexible)
+                    if r:
+                        fails.append("%s reply frame cut to %d of %d bytes, stream fed in pieces of %d: %s"
+                                     % ("flexible (tagged fields)" if flexible else "plain", k, len(full), chunk, r))
     asyncio.run(main())
     return n, fails
 
@@ -92,7 +107,8 @@ def main():
     ap.parse_args()
     n, fails = sweep()
     emit({"name": "truncated-reply-frames", "exhaustive": True, "cases": n, "distinct_nontrivial": n,
-          "bound": "every proper prefix of one MetadataResponse_v0 reply frame (two brokers, two topics) as the first of three "
+          "bound": "every proper prefix of one MetadataResponse_v0 reply frame (two brokers, two topics) and of one flexible "
+                   "ListPartitionReassignmentsResponse_v0 frame with tagged fields in header, entry and body end, as the first of three "
                    "pipelined replies on a real AIOKafkaConnection over a real StreamReader, fed in pieces of 1, 3, 7 bytes and at once",
           "failures": fails[:10], "replay": {"script": REPLAY}})
 
